@@ -58,6 +58,19 @@ class P(Prop):
                     if "status" in ci:
                         ci["status"] = [True] * m["inp"]["n"]
                 case = {"family": "mech", "plant": m["plant"], "inp": m["inp"], "what": "valid"}
+                lines_ = sorted({d["line"] for d in m["plant"]["mech"]})
+                if len(lines_) >= 2 and rng.random() < 0.35:
+                    # every series of ONE shaft line is given another length: consistent within each line, not across the plant
+                    ln = rng.choice(lines_)
+                    k2 = rng.choice([k_ for k_ in range(2, m["inp"]["n"] + 4) if k_ != m["inp"]["n"]])
+                    for d, ci in zip(m["plant"]["mech"], m["inp"]["comps"]):
+                        if d["line"] == ln:
+                            for key in list(ci):
+                                if isinstance(ci[key], list):
+                                    ci[key] = (ci[key] * k2)[:k2]
+                    case["what"] = "length-differs-between-shaft-lines"
+                    out.append(case)
+                    continue
                 if rng.random() < 0.6:
                     bad = rng.choice([[[Fraction(1, 8), Fraction(1, 16)], [Fraction(1, 4), Fraction(1)]],
                                       [[Fraction(1, 2), Fraction(1, 4)], [Fraction(5, 8), Fraction(1)]]])
@@ -178,7 +191,7 @@ class P(Prop):
             elif fam == "hybrid":
                 case["hybrid"] = rng.choice(["same", "copy", "renamed", "none_mech", "none_elec", "extra"])
             elif fam == "dup_shaft":
-                case["shaft_dup"] = rng.choice(["engine", "load", "cross-category", "other-line"])
+                case["shaft_dup"] = rng.choice(["engine", "load", "cross-category", "other-line", "load-engine-load"])
             out.append(case)
         return out
 
@@ -203,6 +216,12 @@ class P(Prop):
                     return self.run_hybrid(case)
                 if fam == "dup_shaft":
                     return self.run_shaft(case)
+                if fam == "mech" and case["what"] == "length-differs-between-shaft-lines":
+                    # the power balance is where inconsistent series must be refused: its outputs are results already
+                    sysm, objs = pg.build_mechanical_system(case["plant"])
+                    pg.apply_mechanical_inputs(sysm, objs, case["plant"], case["inp"])
+                    sysm.do_power_balance()
+                    return {"accepted": True}
                 if fam == "mech":
                     sysm, objs, res = sysrun.run_mechanical(case["plant"], case["inp"])
                     return {"accepted": True, "finite": finite_snapshot(sysrun.snap(res))}
@@ -255,6 +274,11 @@ class P(Prop):
             mech[1]["name"] = "me1"
         elif how == "load":
             mech.append({"name": "prop", "cls": "mech_load", "line": 1, "rated": Fraction(100)})
+        elif how == "load-engine-load":
+            # three components of one name on one line, listed load, engine, load: the two loads are duplicates of each other
+            mech = [{"name": "stbd", "cls": "propeller", "line": 1, "rated": Fraction(6000)},
+                    {"name": "stbd", "cls": "main_engine", "line": 1, "rated": Fraction(4000)},
+                    {"name": "stbd", "cls": "mech_load", "line": 1, "rated": Fraction(100)}] + mech[3:]
         elif how == "cross-category":
             mech[2]["name"] = "me1"        # a load named like an engine: other category, allowed
         else:
@@ -283,6 +307,9 @@ class P(Prop):
             # every line is its own ShaftLine object: the check is per line (the line id is part of the key)
             return f"agree (construct_mechanical {trip}) {acc}"
         if fam == "mech":
+            if case["what"] == "length-differs-between-shaft-lines":
+                ls = sorted({len(v) for ci in case["inp"]["comps"] for v in ci.values() if isinstance(v, list)})
+                return f"agree (all_accepted [series_ok {ls[0]}%nat {core.coq_nat_list(ls)} []]) {acc}"
             if "bad" not in case:
                 return f"agree (all_accepted []) {acc}"
             return f"agree (all_accepted [component_verdict {core.coq_q(case['bad'][0])} {coq_curve(case['bad'][1])}]) {acc}"
@@ -338,7 +365,7 @@ class P(Prop):
         if fam == "hybrid":
             invalid = case["hybrid"] != "same"
         if fam == "dup_shaft":
-            invalid = case["shaft_dup"] in ("engine", "load")
+            invalid = case["shaft_dup"] in ("engine", "load", "load-engine-load")
         if fam == "length" and case["what"] == "pin_consumer_one":
             return None         # a single value standing for a constant is excepted: no claim either way
         if fam == "no_breakers":
